@@ -724,6 +724,12 @@ func (e *env) judgeTransport(d caseDesc, form string, nat *ref, a string, o obs,
 		return
 	}
 	if o.Kind == "" {
+		if in.Class == "udp-password" {
+			// a password-protected UDP endpoint speaks AES-encrypted KCP: no plaintext probe can (or should)
+			// identify it; that it came up on the datagram socket and answers no plaintext probe is the expected outcome
+			e.rec.Seen("udp_password_endpoints_not_answering_plaintext_probes", in.Pos+":"+d.Form)
+			return
+		}
 		e.rec.Inconclusive("endpoint came up but no probe identified it: "+o.Detail, d)
 		return
 	}
